@@ -690,3 +690,49 @@ var _ = register("H_C02_hist", H_C02_hist)
 var _ = register("H_C03_hist", H_C03_hist)
 var _ = register("H_C04_hist", H_C04_hist)
 var _ = register("H_C05_hist", H_C05_hist)
+
+// H_C02_partial: a partial log (what a length-limited load or an explicit entry set yields: the newest m entries
+// of a chain) merges an older replica of the same chain; the heads are still exactly the entries nothing in the
+// log names as predecessor. (Beyond the property's strict quantifier - the state is reached through a loader, not
+// only through appends and merges - but the statement is about the log's entries and holds for such logs too.)
+func H_C02_partial() {
+	h := newHist(histCfg{R: 1, K: 0, W: 1, sort: vx.Param("SORT", sortLWW), pcN: 1, emptyAt: -1, denyP: -1})
+	N := vx.Param("N", 5)
+	writer := h.logs[0]
+	stale := freshObserver(h, 0)
+	at := 1 + vx.Choice("staleAfter", N-1)
+	pc := []int{1, 2, 4}[vx.Choice("pc", 3)]
+	var chain []iface.IPFSLogEntry
+	for i := 0; i < N; i++ {
+		e, err := writer.Append(ctx, []byte{'e', byte('1' + i)}, &ipfslog.AppendOptions{PointerCount: pc})
+		if err != nil {
+			panic(err)
+		}
+		chain = append(chain, e)
+		if i+1 == at {
+			if _, err := stale.Join(writer, -1); err != nil {
+				panic(err)
+			}
+		}
+	}
+	m := 1 + vx.Choice("keep", N)
+	kept := chain[N-m:]
+	o := &ipfslog.LogOptions{SortFn: h.sortFn(), IO: h.io(), Entries: orderedMapOf(kept)}
+	if vx.Choice("explicitHeads", 2) == 1 {
+		o.Heads = []iface.IPFSLogEntry{chain[N-1]}
+	}
+	P := newLogOpt(h.api, h.writerOf(0), o)
+	propOverride = "C02"
+	checkHeads(P, "partial log")
+	_, err := P.Join(stale, -1)
+	vx.Assert("C02", err == nil, "merging an older replica into a partial log succeeds")
+	checkHeads(P, "partial log after merging an older replica")
+	e, err := P.Append(ctx, []byte("next"), nil)
+	vx.Assert("C02", err == nil && e != nil, "appending to the partial log succeeds")
+	if err == nil {
+		checkHeads(P, "partial log after merge and append")
+	}
+	vx.Cover("partial-merged-older")
+}
+
+var _ = register("H_C02_partial", H_C02_partial)
